@@ -1,4 +1,6 @@
 import SaModel.Spec.Interp
+import SaModel.Read.Cast
+import SaModel.Read.Label
 /-
 Which field may an error name?  `blame … x` lists the schema positions (as `$`-rooted paths) at which the
 documented mapping is undefined for `x` *for a reason of that position's own*: the deepest positions where
@@ -217,5 +219,158 @@ end
 /-- positions an error about row `x` may name -/
 def blameRow (ext : Ext) (fields : List Field) (x : SVal) : List String :=
   blameDT ext "$" (.struct (Fields.ofList fields)) false [] x
+
+/-! ## reader side: which position of the VIEW may an error of a typed read name?
+
+`blameRead t a lv` lists the positions of the view `a` (child names from its root, with the `data_type` label of the
+reader family there) at which reading the slot with logical value `lv` into the Rust type `t` has no demanded value
+FOR A REASON OF THAT POSITION'S OWN.  It is written from `Read.cast` (the value-level meaning of a typed read), not
+from the readers: records by field NAME, tuples by position, list elements, map entries, the selected union variant,
+`Option` layers by null-ness.
+
+* a position is blamed where `cast` does not demand a value (`mustFail`: out of range, not a char, null into a
+  non-`Option` target, …; or no claim: the (target, column) pair is not supported) and no part of the value is to blame;
+* a container position is blamed for its own structural reasons: a tuple longer than the struct, a non-`Option` target
+  field without a column field of its name (or repeated names: by-name reading has no meaning), a key type a field name
+  cannot be read into, a variant the enum does not have, a union slot without a variant;
+* otherwise the blame lies with the parts: never with an ancestor of a deeper failure, never with a sibling.
+
+Where `cast` demands a value (`must d`) nothing is blamed (`Props.C02.read_typed_decode`: the read succeeds).
+Path conventions of the readers: every child through `ChildName` (struct fields included); map children below the
+entries name; dictionaries have no child readers. -/
+
+section ReadBlame
+open SaModel.Read
+
+/-- a position of a view: child names from the view's root, and the label of the reader there -/
+abbrev RPos := List String × String
+
+/-- the view's own position -/
+def here (a : Arr) : List RPos := [([], Read.label a)]
+
+/-- positions of a child, seen from the parent -/
+def below (seg : List String) (l : List RPos) : List RPos := l.map fun q => (seg ++ q.1, q.2)
+
+def Claim.isMust : Claim → Bool
+  | .ok (some _) => true
+  | _ => false
+
+/-- scalar targets (and every pair without parts): blamed iff `cast` does not demand a value -/
+def blameScalar (t : Target) (a : Arr) (lv : LVal) : List RPos :=
+  if Claim.isMust (castScalar t a lv) then [] else here a
+
+def blameVals (f : LVal → List RPos) : LVals → List RPos
+  | .nil => []
+  | .cons v r => f v ++ blameVals f r
+
+def blameEntriesR (fk fv : LVal → List RPos) : LEntries → List RPos
+  | .nil => []
+  | .cons k v r => fk k ++ fv v ++ blameEntriesR fk fv r
+
+/-- every field of the struct as a map entry: the value through `f`, below the field's name -/
+def blameStructAsMap (f : Arr → LVal → List RPos) : ArrFields → LFields → List RPos
+  | .cons fm a rest, .cons _ lv lrest => below [childName fm.name] (f a lv) ++ blameStructAsMap f rest lrest
+  | _, _ => []
+
+/-- the column fields called `n`, each through `f` -/
+def blameNamed (f : Arr → LVal → List RPos) (n : String) : ArrFields → LFields → List RPos
+  | .cons fm a rest, .cons _ lv lrest =>
+    (if fm.name == n then below [childName fm.name] (f a lv) else []) ++ blameNamed f n rest lrest
+  | _, _ => []
+
+/-- a non-`Option` target field without a column field of its name -/
+def requiredMissing : TFields → List String → Bool
+  | .nil, _ => false
+  | .cons n t rest, names => (!t.isOption && !names.contains n) || requiredMissing rest names
+
+/-- tuple-like targets: only a struct column answers; its own reason: fewer fields than elements -/
+def blameTupleAt (n : Nat) (f : ArrFields → LFields → List RPos) (a : Arr) (lv : LVal) : List RPos :=
+  match a, lv with
+  | .struct _ _ fs, .struct lfs => (if n > fs.length then here a else []) ++ f fs lfs
+  | a, _ => here a
+
+/-- struct targets by field name: only a struct column answers; its own reasons: a required field is missing, or
+names repeat on either side (`cast` makes no claim then) -/
+def blameStructAt (tfs : TFields) (f : ArrFields → LFields → List RPos) (a : Arr) (lv : LVal) : List RPos :=
+  match a, lv with
+  | .struct _ _ fs, .struct lfs =>
+    (if !nodupNames (ArrFields.names fs) || !nodupNames (TFields.names tfs) || requiredMissing tfs (ArrFields.names fs)
+     then here a else []) ++ f fs lfs
+  | a, _ => here a
+
+mutual
+def blameRead : Target → Arr → LVal → List RPos
+  | .any, _, _ => []
+  | .ignored, _, _ => []
+  | .option t, a, lv =>
+    match lv with
+    | .null => []
+    | lv => blameRead t a lv
+  | .newtype t, a, lv => blameRead t a lv
+  | .seq t, a, lv =>
+    match a, lv with
+    | .list _ _ _ fm el, .list items => below [childName fm.name] (blameVals (fun v => blameRead t el v) items)
+    | .fixedSizeList _ _ _ fm el, .list items => below [childName fm.name] (blameVals (fun v => blameRead t el v) items)
+    | a, lv => if Claim.isMust (cast (.seq t) a lv) then [] else here a
+  | .tuple ts, a, lv => blameTupleAt ts.length (fun fs lfs => blameTuple ts fs lfs) a lv
+  | .tupleStruct ts, a, lv => blameTupleAt ts.length (fun fs lfs => blameTuple ts fs lfs) a lv
+  | .map k v, a, lv =>
+    match a, lv with
+    | .struct _ _ fs, .struct lfs =>
+      (match k with
+       | .string | .any => []
+       | _ => here a) ++ blameStructAsMap (fun c w => blameRead v c w) fs lfs
+    | .map _ _ mm ks vs, .map es =>
+      blameEntriesR (fun w => below [childName mm.entriesName, childName mm.keys.name] (blameRead k ks w))
+        (fun w => below [childName mm.entriesName, childName mm.values.name] (blameRead v vs w)) es
+    | a, _ => here a
+  | .struct tfs, a, lv => blameStructAt tfs (fun fs lfs => blameFieldsR tfs fs lfs) a lv
+  | .enum byIndex vs, a, lv =>
+    match a, lv with
+    | .union _ _ fs, .union t v =>
+      (match ArrUFields.findId fs t with
+       | none => here a
+       | some (fm, child) =>
+         blameVariant vs (if byIndex then some t.toNat else none) fm.name (here a) (childName fm.name) child v)
+    | a, lv => if Claim.isMust (cast (.enum byIndex vs) a lv) then [] else here a
+  | .unit, a, lv => blameScalar .unit a lv
+  | .unitStruct, a, lv => blameScalar .unitStruct a lv
+  | .bool, a, lv => blameScalar .bool a lv
+  | .int ty, a, lv => blameScalar (.int ty) a lv
+  | .f32, a, lv => blameScalar .f32 a lv
+  | .f64, a, lv => blameScalar .f64 a lv
+  | .char, a, lv => blameScalar .char a lv
+  | .string, a, lv => blameScalar .string a lv
+  | .str, a, lv => blameScalar .str a lv
+  | .bytes, a, lv => blameScalar .bytes a lv
+  | .byteBuf, a, lv =>
+    match a, lv with
+    | .list _ _ _ fm el, .list items =>     -- `ByteBuf` from a list column: every element as `u8`
+      below [childName fm.name] (blameVals (fun v => blameScalar (.int .u8) el v) items)
+    | a, lv => blameScalar .byteBuf a lv
+/-- element `k` from field `k` -/
+def blameTuple : Targets → ArrFields → LFields → List RPos
+  | .cons t rest, .cons fm a frest, .cons _ v lrest =>
+    below [childName fm.name] (blameRead t a v) ++ blameTuple rest frest lrest
+  | _, _, _ => []
+/-- every target field from the column fields of its name -/
+def blameFieldsR : TFields → ArrFields → LFields → List RPos
+  | .nil, _, _ => []
+  | .cons n t rest, fs, lfs => blameNamed (fun a v => blameRead t a v) n fs lfs ++ blameFieldsR rest fs lfs
+/-- the variant of the enum selected by name / index (`unknown`: what is blamed when the enum has none) -/
+def blameVariant : TVariants → Option Nat → String → List RPos → String → Arr → LVal → List RPos
+  | .nil, _, _, unknown, _, _, _ => unknown
+  | .cons n k rest, sel, name, unknown, seg, child, v =>
+    if (match sel with | some i => i == 0 | none => n == name) then below [seg] (blameKind k child v)
+    else blameVariant rest (sel.map (· - 1)) name unknown seg child v
+/-- the payload of the variant, read from the variant's column -/
+def blameKind : VKind → Arr → LVal → List RPos
+  | .unit, child, v => if isNullArr child && LVal.isNull v then [] else here child
+  | .newtype t, child, v => blameRead t child v
+  | .tuple ts, child, v => blameTupleAt ts.length (fun fs lfs => blameTuple ts fs lfs) child v
+  | .struct tfs, child, v => blameStructAt tfs (fun fs lfs => blameFieldsR tfs fs lfs) child v
+end
+
+end ReadBlame
 
 end SaModel.Spec
